@@ -68,6 +68,7 @@ def inline(
                 for c2 in src.nodes:
                     if c2.kind == "call" and c2.ast is n.ast.value:
                         await_of[c2.id] = n
+        targets_of: dict[int, list[FuncInfo]] = {}
         for n in src.nodes:
             targets: list[FuncInfo] = []
             if n.kind == "call" and d > 0 and not n.in_comp:
@@ -83,9 +84,16 @@ def inline(
                     if policy is not None and not policy(n, cal):
                         continue
                     targets.append(cal)
+            if targets:
+                targets_of[n.id] = targets
+        stripped_awaits = {await_of[i].id for i in targets_of if i in await_of}
+        for n in src.nodes:
             me = mapping[n.id]
+            targets = targets_of.get(n.id, [])
             if not targets:
                 for y, k in src.succ[n.id]:
+                    if n.id in stripped_awaits and k in ("exc", "cancel"):
+                        continue  # exceptions / cancellation come out of the inlined callee body instead
                     g.edge(me, mapping[y], k)
                 continue
             me.meta["inlined"] = [t.qualname for t in targets]
